@@ -88,9 +88,37 @@ def oracle(case, obs):
     return None
 
 
+class Reseeded:
+    """after its first answer the device is wiped and re-onboarded with another seed (other keys); the
+    manager notices a link error on the next exchange"""
+
+    def __init__(self, inner, new_keys):
+        self.__dict__.update(inner=inner, new_keys=new_keys, n=0)
+
+    def __call__(self, apdu):
+        self.__dict__["n"] += 1
+        if self.n == 2:
+            self.inner.pubkeys = dict(self.new_keys)
+            return ("W",)
+        return self.inner(apdu)
+
+    def __getattr__(self, name):
+        return getattr(self.inner, name)
+
+
 def gen_cases(rng, n):
     cases = []
     for i in range(n):
+        if i % 40 == 7:
+            d = gen.random_device(rng)
+            p = gen.PATHS[(i // 40) % 6]
+            new_keys = {k: gen.rbytes(rng, 65) for k in d.pubkeys}
+            req = {"command": "getPubKey", "version": 5, "keyId": p}
+            other = {"command": "blockchainParameters", "version": 5}
+            cases.append({"mode": "v5", "kind": "ledger", "lines": [gen.line(req), gen.line(other), gen.line(req)],
+                          "connects": [True], "device": Reseeded(d, new_keys),
+                          "meta": {"q": "pubkey", "path": p, "history": "reseeded"}})
+            continue
         q = ["pubkey", "state", "params", "shb", "uihb"][i % 5]
         d = gen.random_device(rng)
         meta = {"q": q}
